@@ -347,6 +347,7 @@ class NativeCtx:
         self.objects = []
         self.fresh_counter = 0
         self.require_mode = "assume"
+        self.proved = []
 
     def int(self, name, lo=None, hi=None):
         v = self.model.get(name)
@@ -371,6 +372,26 @@ class NativeCtx:
             object.__setattr__(o, k, v)
         self.objects.append(o)
         return o
+
+    def assume(self, cond):
+        if not cond:
+            from .spec import PreconditionFailed
+            raise PreconditionFailed("assumption of the input builder not met by the counter-model")
+
+    def require(self, cond, label="pre"):
+        self.assume(cond)
+
+    def prove(self, name, cond, detail=None):
+        self.proved.append((name, bool(cond), detail))
+
+    def fail(self, name, detail=None):
+        self.proved.append((name, False, detail))
+
+    def cover(self):
+        return None
+
+    def choose_int(self, x, what="shape", cap=0):
+        return x
 
 
 def cvc5_check(smt2, timeout_ms, logic):
